@@ -46,7 +46,9 @@ M_Launch ==
         /\ x \in Poppable(St(ev.pre).q)              \* container/heap pops a minimum-priority item
         /\ St(ev.post) = LaunchEffect(St(ev.pre), x)
 M_Process ==
-  IsStep /\ ev.kind = "processed" => St(ev.post) = ProcessEffect(inst, St(ev.pre), ev.h, ev.ok)
+  IsStep /\ ev.kind = "processed" =>
+     /\ ev.h \in DOMAIN St(ev.pre).cache                 \* only something that was launched can be processed
+     /\ St(ev.post) = ProcessEffect(inst, St(ev.pre), ev.h, ev.ok)
 M_Chain == IsStep /\ ev.seq > 1 => (Rec(l - 1).k = "step" /\ Rec(l - 1).run = ev.run => Rec(l - 1).post = ev.pre)
 Sources == IF inst.Kind = "entry" THEN S(inst.Start) ELSE {}
 M_Loader ==
